@@ -40,6 +40,8 @@ def strategy(tier: str) -> Any:
         'backend': st.sampled_from(['dict', 'dict', 'maildir']),
         'init': st.lists(st.integers(0, 31), min_size=1, max_size=6),
         'nsess': st.sampled_from([2, 2, 3, 4]),
+        'examine': st.lists(st.sampled_from([False, False, True]), min_size=4,
+                            max_size=4),
         'steps': steps_strategy(max_steps, 4, ops=OPS),
         'check': st.booleans(),
     })
